@@ -77,6 +77,31 @@ func ComposeFrom(kind string) func(init *tla.Value, populate func(hackpadfs.FS) 
 			store, _ := mem.NewFS()
 			c, err := cache.NewReadOnlyFS(src, store, cache.ReadOnlyOptions{})
 			return c, none, err
+		case kind == "tarcut":
+			// a tar FS whose archive was cut off in the middle of its second entry (unpacking failed): invalid names must
+			// still be refused as invalid, whatever state the archive is in
+			src, _ := mem.NewFS()
+			if err := populate(src); err != nil {
+				return nil, nil, err
+			}
+			buf, err := TarOf(src)
+			if err != nil {
+				return nil, nil, err
+			}
+			cut := 512 + 512 + 512 + 100 // first entry complete (header + data block), second header, part of its data
+			if cut > len(buf) {
+				cut = len(buf) / 2
+			}
+			t, err := hptar.NewReaderFS(context.Background(), bytes.NewReader(buf[:cut]), hptar.ReaderFSOptions{})
+			if err != nil {
+				return nil, nil, err
+			}
+			select {
+			case <-t.Done():
+			case <-time.After(20 * time.Second):
+				return nil, nil, fmt.Errorf("tar unpack of a cut archive did not finish")
+			}
+			return t, none, nil
 		case kind == "tar":
 			src, _ := mem.NewFS()
 			if err := populate(src); err != nil {
